@@ -99,3 +99,21 @@ def string_axioms(ex):
         z3.ForAll([s], st(st(s)) == st(s)),
         z3.ForAll([s], z3.Length(st(s)) <= z3.Length(s)),
     ]
+
+
+@specfunc('is_space')
+def is_space(ex, st, c):
+    """c (a 1-character string) is whitespace in the sense of the regex class \\s / str.isspace"""
+    from pyvc import regex
+    t = ex.term(c, 'S')
+    return SV(z3.InRe(t, regex.union(regex.rng(a, b) for a, b in regex.ws_ranges())), BOOL)
+
+
+@specfunc('all_distinct_chars')
+def all_distinct_chars(ex, st, s):
+    """no character occurs twice in s  (spec twin of  len(s) > len(set(s))  being false)"""
+    t = ex.term(s, 'S')
+    i = z3.Int('adc_i')
+    j = z3.Int('adc_j')
+    return SV(z3.ForAll([i, j], z3.Implies(z3.And(0 <= i, i < j, j < z3.Length(t)),
+                                           z3.SubString(t, i, 1) != z3.SubString(t, j, 1))), BOOL)
